@@ -168,6 +168,10 @@ def oracle(ck, extended):
         b, s = rng.choice(pairs)
         x = gen.float_tensor(ck.nprng, (1, 2, H, W))
         rt.guard(ck, oracle_pr, ck, b, s, J, x, 2, -1)
+    # the smallest images with EVERY level-1 family (filters longer than the image on one or both axes)
+    for b in OD.BIORTS:
+        for (H, W) in [(2, 2), (2, 11), (7, 3), (8, 8)]:
+            rt.guard(ck, oracle_pr, ck, b, rng.choice(OD.QSHIFTS), rng.randint(1, 3), gen.float_tensor(ck.nprng, (1, 1, H, W)), 2, -1)
     for _ in range(3 if q else 20):
         b, s = rng.choice(pairs); J = rng.randint(1, 3)
         shapes = [(1, rng.randint(1, 2), rng.randint(4, 24), rng.randint(4, 24)) for _ in range(rng.randint(2, 3))]
